@@ -29,6 +29,7 @@ var solvers = []solverSpec{
 
 func buildQuery(pre *Preamble, o *Obligation) string {
 	var sb strings.Builder
+	sb.WriteString("; obligation " + strings.ReplaceAll(o.Name, "\n", " ") + "\n")
 	sb.WriteString("(set-option :produce-models true)\n")
 	sb.WriteString(smtPrelude)
 	sb.WriteString(pre.text(false))
